@@ -166,6 +166,16 @@ impl Session {
                     return Err(Error::SessionNotEstablished);
                 }
             };
+            // The record that supplies the verification key must be the record of the node the
+            // handshake claims to come from.
+            if enr.node_id() != *remote_id {
+                warn!(
+                    node = %remote_id,
+                    record = %enr.node_id(),
+                    "Handshake record does not belong to the source node id",
+                );
+                return Err(Error::InvalidChallengeSignature(Box::new(challenge)));
+            }
             enr.public_key()
         };
 
